@@ -575,9 +575,17 @@ static void single(vf::Runner& R, int scheme, int mode) {
     for (int v = 0; v < n; ++v) u.val[v] = gridValues(v, hh)[pd[v]];
     if (u.e == E_SETONE) {
       // set-one can only move one variable: bring the others to the point first (muted), then judge the set-one of the last variable
-      OpDesc pre = u; pre.e = E_SETALL; bool xs = sys.X; (void)xs;
+      OpDesc pre = u; pre.e = E_SETALL;
       u.mask = 1 << (n - 1);
-      if (n > 1) { pre.val[n - 1] = X0[n - 1]; sys.applyDesc(pre, mc); if (sys.poisoned) { c.tag("cross-at-bound-raised-by-design"); return; } }
+      if (n > 1) {
+        // the positioning update is judged too (into a scratch record): if it already violates the property the case ends here - that
+        // violation is reported by the setAllParametersValues cases of this space, and what follows would only be its consequence
+        pre.val[n - 1] = X0[n - 1];
+        vf::Case pc = c; vf::Out scratch; pc.out = &scratch; pc.muted = false; pc.verbose = false; pc.failed = false;
+        sys.applyDesc(pre, pc);
+        if (sys.poisoned) { c.tag("cross-at-bound-raised-by-design"); return; }
+        if (pc.failed) { c.tag("set-one:positioning-update-already-violates(reported-elsewhere)"); return; }
+      }
     }
     c.site(ENAME[u.e]);
     sys.applyDesc(u, c);
